@@ -1,4 +1,5 @@
 pub mod authdata;
 pub mod psl;
 pub mod rpid;
+pub mod selftest;
 pub mod util;
